@@ -52,6 +52,24 @@ func genC19(seed uint64, tier string, idx int) *Plan {
 			p.Expect.Frames[ci] = append(append([]SentFrame(nil), f1...), p.Expect.Frames[ci]...)
 			p.Faults = append(p.Faults, "input.second_alarm_same_connection")
 		}
+		if g.r.chance(20) {
+			// the connection does not end with an orderly close: a reset, or a message the attachment server does not
+			// know (a heartbeat) before the close - the session then ends in the "failed" stage
+			a := p.Actors[len(p.Actors)-1]
+			k := len(a.Ops)
+			for k > 0 && a.Ops[k-1].K != "fin" {
+				k--
+			}
+			if k > 0 {
+				tail := []Op{{K: "rst"}, {K: "quiet"}}
+				if g.r.chance(50) {
+					hb := ref.Frame{ID: 0x0002, Ver19: v19, VerByte: 1, Phone: p.Conns[ci].Phone, Serial: 1}
+					tail = []Op{{K: "send", Data: hb.Encode(), End: true}, {K: "quiet"}, {K: "fin"}, {K: "quiet"}}
+				}
+				a.Ops = append(a.Ops[:k-1:k-1], tail...)
+				p.Faults = append(p.Faults, "peer.error_ending")
+			}
+		}
 		if g.r.chance(25) {
 			// close at an arbitrary earlier point
 			a := p.Actors[len(p.Actors)-1]
